@@ -22,6 +22,7 @@ func TestVerifC12(t *testing.T) {
 		return
 	}
 	rng := hk.NewRNG(hk.Seed(), "c12")
+	hostilePrelude(hk.NewRNG(hk.Seed(), "prelude"))
 
 	// ---- GenerateKey on streams whose leading candidates are out of range
 	bad := [][]byte{make([]byte, 32), ref.B32(nm1), ref.B32(nI), ref.B32(new(big.Int).Add(nI, bi(1))), ref.B32(new(big.Int).Sub(b256, bi(1)))}
